@@ -842,7 +842,27 @@ func ptrExprProbe() (problem string) {
 		return
 	}
 	st.Marshal([]any{"AND", "r", "s", "t"})
-	check("the variable was revived by Marshal")
+	if !check("the variable was revived by Marshal") {
+		return
+	}
+	// a Condition held by a Condition keeps being held - through Unmarshal and Marshal too -
+	// whatever its own validity policy says later on (it is asked when Valid() is called)
+	inner := stk.Cond("inner", stk.Eq, "v")
+	tree := stk.And().Push("lead", stk.Cond("outer", stk.Ne, inner))
+	inner.SetValidityPolicy(func(...any) error { return fmt.Errorf("the inner Condition's own policy fails now") })
+	u, _ := tree.Unmarshal()
+	var rebuilt stk.Stack
+	rebuilt.Marshal(u...)
+	got := "no Condition at slot 1"
+	if e, ok := rebuilt.Index(1); ok {
+		if oc, isCond := stk.ConvertCondition(e); isCond {
+			_, holds := stk.ConvertCondition(oc.Expression())
+			got = fmt.Sprintf("outer holds a Condition: %v", holds)
+		}
+	}
+	if got != "outer holds a Condition: true" {
+		problem = fmt.Sprintf("a Condition holding a Condition whose validity policy began to fail after it was accepted: after Unmarshal + Marshal, %s", got)
+	}
 	return
 }
 
